@@ -3,6 +3,8 @@ Property C07 — what annotate writes, the linter reads back.
 -/
 import ReuseVerif.Lemmas.HeaderParts
 import ReuseVerif.Lemmas.StyleTable
+import ReuseVerif.Lemmas.C07Achievable
+import ReuseVerif.Theorems.C02
 
 namespace C07
 open Py Model Spec
@@ -125,6 +127,112 @@ theorem C07_file_partial (c : HdrCfg) (replace skip : Bool) (info : Extracted) (
 
 -- the hypotheses are satisfiable (the driver evaluates them on every case of the `filetie` stream)
 example : noIgnoreStart "# SPDX-License-Identifier: MIT\n".toList = true := by decide
+
+/-! ### The default template is achievable -/
+
+/-- Table obligation on the generated END expression: it is a starred expression and none of its
+    alternatives can begin with a line feed (so END, started right after a value that ends its
+    line, stops there). -/
+theorem C07_end_well_behaved : endWellBehaved Generated.endRe = true := by decide +kernel
+
+/-- **Table obligation (re-opened whenever a style is added or changed).**  Every style of the
+    generated style table — the two pseudo styles included — satisfies the side condition
+    `styleReadable` in every line mode it supports (default and forced multi-line): the marker in
+    front of a line, the marker an empty line becomes and the opening / closing lines of a multi-line
+    comment hold no line boundary and nothing that could begin `SPDX-…`, `Copyright`, `©` or
+    `REUSE-IgnoreStart`; the opening and closing lines are not empty.  No style fails it. -/
+theorem C07_styles_readable :
+    Generated.styles.all (fun s => [false, true].all fun fm =>
+      match lineMode s fm with
+      | some m => styleReadable s m
+      | none => true) = true := by decide +kernel
+
+/-- **The default template is achievable — general form.**  For *any* style `c.style` and line
+    mode `m` it supports with `styleReadable` (a decidable condition on the markers), the bundled
+    default template and every request covered by `wfRequest` (see `Spec/Achievable.lean`):
+    `_create_new_header` returns a header (the guard accepts), and the tool's own extraction of
+    that header yields exactly the requested licence expressions, copyright lines and
+    contributors (as duplicate-free lists in sorted order). -/
+theorem C07_default_achievable_style (c : HdrCfg) (info : Extracted) (m : LineMode)
+    (hr : c.render = defaultRender) (hc : c.commented = false)
+    (hm : lineMode c.style c.forceMulti = some m)
+    (hstyle : styleReadable c.style m = true)
+    (hreq : wfRequest Generated.endRe c.style m info = true) :
+    ∃ h, createNewHeader c info = .ok h ∧
+      extractRaw h = ⟨dedup (sortTexts info.lic), dedup (sortTexts info.cpr), dedup (sortTexts info.con)⟩ := by
+  have sf := C07A.styleFacts hstyle
+  have rq := C07A.reqOK_of_wfRequest hreq
+  have hwb := C07_end_well_behaved
+  unfold endWellBehaved at hwb
+  simp only [Bool.and_eq_true, Bool.not_eq_true'] at hwb
+  obtain ⟨body, hbody⟩ := Option.isSome_iff_exists.mp hwb.1
+  have hstar := starBody_eq hbody
+  have hnil : Re.Matches Generated.endRe [] := by rw [hstar]; exact .starNil
+  have hnull : nullable Generated.endRe = true := by rw [hstar]; rfl
+  have hrend := C07A.renderedHeader_default c info m hr hc hm sf rq
+  have hext := C07A.extract_header Generated.endRe hnil hwb.2 hnull sf rq
+  refine ⟨_, ?_, hext⟩
+  rw [createNewHeader_eq, hrend]
+  have hg : guardOk c info (join ['\n'] (C07A.headerLines c.style m
+      (C07A.bodyLines (sortTexts info.cpr) (sortTexts info.con) (sortTexts info.lic)))) = true := by
+    unfold guardOk
+    have hext' : extractRaw (join ['\n'] (C07A.headerLines c.style m
+        (C07A.bodyLines (sortTexts info.cpr) (sortTexts info.con) (sortTexts info.lic)))) = _ := hext
+    rw [hext']
+    simp only [Bool.and_eq_true]
+    refine ⟨sameSet_iff.mpr fun x => ?_, sameSet_iff.mpr fun x => ?_⟩
+    · rw [mem_dedup, C07A.mem_sortTexts]
+    · simp only [List.mem_map, mem_dedup, C07A.mem_sortTexts]
+  simp [hg]
+
+/-- **C07_default_achievable.**  For the bundled default template, every style of the generated
+    style table and every line mode the style supports (single-line, multi-line incl. forced; the
+    text as it is for the two pseudo styles, i.e. `FILE.license`), and every request covered by
+    `wfRequest`: `_create_new_header` succeeds, and what the tool's own reader extracts from the
+    header it returns is exactly the request — copyright lines, licence expressions and
+    contributors.
+
+    The request hypotheses (`wfRequest`, decidable): each copyright line is a notice the reader
+    reads back as itself (`noticeSelf`; every line built from a generated prefix, a year form and
+    a well-formed holder is one: `C07_notice_built`) and contains neither tag; each licence
+    expression / contributor is stripped, not empty, has no tail that could begin a run of comment
+    terminators (`tailSafe`, computed with derivatives of the generated END expression) and does
+    not end like the mirrored frame of its line prefix (`frameFree`: e.g. ` c` under Fortran's `c`
+    marker); its line contains neither the other tag nor a copyright notice; no rendered line
+    contains a line boundary, `REUSE-IgnoreStart` or — in multi-line mode — the comment terminator
+    (for which `create_comment` raises).  Each of these is necessary: dropping it gives a request
+    the code refuses or reads back differently. -/
+theorem C07_default_achievable (c : HdrCfg) (info : Extracted) (m : LineMode)
+    (hs : c.style ∈ Generated.styles)
+    (hr : c.render = defaultRender) (hc : c.commented = false)
+    (hm : lineMode c.style c.forceMulti = some m)
+    (hreq : wfRequest Generated.endRe c.style m info = true) :
+    ∃ h, createNewHeader c info = .ok h ∧
+      (∀ x, x ∈ (extractRaw h).cpr ↔ x ∈ info.cpr) ∧
+      (∀ x, x ∈ (extractRaw h).lic ↔ x ∈ info.lic) ∧
+      (∀ x, x ∈ (extractRaw h).con ↔ x ∈ info.con) := by
+  have htab := C07_styles_readable
+  rw [List.all_eq_true] at htab
+  have h1 := htab c.style hs
+  rw [List.all_eq_true] at h1
+  have h2 := h1 c.forceMulti (by cases c.forceMulti <;> simp)
+  rw [hm] at h2
+  obtain ⟨h, hok, hext⟩ := C07_default_achievable_style c info m hr hc hm h2 hreq
+  refine ⟨h, hok, ?_, ?_, ?_⟩ <;> intro x <;> rw [hext] <;> simp only [mem_dedup, C07A.mem_sortTexts]
+
+/-- Every copyright line `make_copyright_line` builds from one of the ten generated prefixes, a
+    year form and a holder satisfying C02's `WFNotice` (no line prefix, no trail) is a notice the
+    reader reads back as itself, provided it is stripped (the holder does not end in white space). -/
+theorem C07_notice_built (x : Text × CPat × Text) (hx : x ∈ prefixShapes) (y : YearForm) (h : Text)
+    (hwf : WFNotice Generated.endRe x y h [] [] = true) (hs : isStripped (builtLine x.1 y h) = true) :
+    noticeSelf Generated.endRe (builtLine x.1 y h) = true := by
+  have := C02.C02_copyright_exact_partial Generated.endRe x hx y h [] [] hwf
+  simp only [List.nil_append, List.append_nil] at this
+  unfold noticeSelf
+  rw [this]
+  unfold isStripped at hs
+  simp only [beq_iff_eq] at hs
+  simp [hs]
 
 /-! ### File types: the two tables and the routing to `FILE.license` -/
 
